@@ -174,8 +174,8 @@ def track_J(Job, cfg, name, entry, enforce, tier="quick", **kw):
 def crc_jobs(Job, cfg=CFG_NDEBUG, tier="quick"):
     return [track_J(Job, cfg, "crc_cycle", "h_crc_cycle", ["crc_cycle"], tier),
             track_J(Job, cfg, "crc_update_bit", "h_crc_update_bit", ["CRC16Base_update_bit"], tier, replace=["crc_cycle"]),
-            track_J(Job, cfg, "crc_update", "h_crc_update", ["CRC16Base_update"], tier, replace=["crc_cycle"], loops=True,
-                    cbmc=["--unwindset", "h_fill_crc.0:266,CRC16Base_update_wrapped_for_contract_checking.1:9,CRC16Base_update.1:9", "--unwinding-assertions"])]
+            track_J(Job, cfg, "crc_update", "h_crc_update", ["CRC16Base_update"], tier, replace=["crc_cycle"], loops=True, pre_unwind="CRC16Base_update.1:9",
+                    cbmc=["--unwindset", "h_fill_crc.0:266", "--unwinding-assertions"])]
 
 
 def bitstream_jobs(Job, cfg=CFG_NDEBUG, tier="quick"):
